@@ -121,6 +121,9 @@ func (w *world) run(phase string, total int, f *findings, b *bfs, extra func(*jo
 	if n > maxProcs {
 		n = maxProcs
 	}
+	if v := os.Getenv("VERIF_C08_PROCS"); v != "" { // development aid only; which items exist never depends on it
+		fmt.Sscanf(v, "%d", &n)
+	}
 	if n > total {
 		n = total
 	}
@@ -265,18 +268,14 @@ func childMain(r *vlib.Run, jobFile string) {
 	f := &findings{}
 	b := newBFS(w)
 	switch j.Phase {
-	case "pairs":
-		w.pairTransitions(f, b)
+	case "single":
+		w.singleTransitions(f, b)
 	case "bfs":
 		fr := make([]*rawState, len(j.Frontier))
 		for i, g := range j.Frontier {
 			fr[i] = fromGob(g)
 		}
 		b.expand(f, fr, j.Dirs)
-	case "walks":
-		w.walks(f)
-	case "skew":
-		w.serialSkew(f)
 	default:
 		vlib.Infra("unknown phase %q", j.Phase)
 	}
